@@ -631,6 +631,12 @@ int dns_decode(char *buf, size_t buflen, struct query *q, qr_t qr, char *packet,
 		readshort(packet, &data, &type);
 		readshort(packet, &data, &class);
 
+		/* 253 characters make the 255 bytes a name may have on
+		   the wire; a longer one cannot be echoed in an answer */
+		if (strlen(name) > 253) {
+			return -1;
+		}
+
 		if (q == NULL) {
 			rv = 0;
 			break;
